@@ -56,7 +56,8 @@ def produce(ctx, weights=(4, 3, 3), force_in_range=False):
 def _builder(ctx):
     ch = ctx.ch
     feats = {"cond": ch.coin(3, 4, "f-cond"), "loop": ch.coin(3, 4, "f-loop"), "cfg": ch.coin(3, 4, "f-cfg"),
-             "calls": ch.coin(3, 4, "f-calls"), "poly": ch.coin(1, 2, "f-poly"), "meta": ch.coin(3, 4, "f-meta")}
+             "calls": ch.coin(3, 4, "f-calls"), "poly": ch.coin(1, 2, "f-poly"), "meta": ch.coin(3, 4, "f-meta"),
+             "insert": ch.coin(1, 3, "f-insert")}
     try:
         sim = BuilderSim(ctx, features=feats, max_steps=10 + ch.draw(40, "max-steps"))
         sim.run()
